@@ -132,6 +132,7 @@ PROFILES += [
             ("scope == FldExporter.ScopeOfValues.AllVariables", "allVariables", "Bool", True),
             ("int(pow(_0, 1.0 / _1))", "(guess {0} {1})", "Nat", True, ["Nat", "Nat"]),
             ("_0 in active_variables", "{0}.active", "Bool", True, [FLD_VAR]),
+            ("_0 not in active_variables", "(!{0}.active)", "Bool", True, [FLD_VAR]),
             ("_0.drange", "{0}.drange", "X Rat", True, [FLD_VAR]),
             ("_0.minimum", "{0}.minimum", "X Rat", True, [FLD_VAR]),
             ("np.take(_0.value, -1).astype(float)", "{0}.value", "X Rat", True, [FLD_VAR]),
@@ -172,6 +173,26 @@ PROFILES += [
     },
 ]
 
+# ---- Settings.context (generator-based context manager: enter = up to the yield, exit = the finally block)
+# Keys are the indices of the keyword parameters / attributes (model `Op.Settings`), values are abstract identifiers;
+# `None` = argument not given.  The object is the local `store` (attribute index -> value).  The renaming of the key
+# `factory_manager` to the attribute `_factory_manager` keeps the index (and the entry stays last).
+SET_LOCALS = {"context_settings": "List (Nat × Option Nat)", "rollback_settings": "Nat → Option Nat", "key": "Nat",
+              "value": "Option Nat", "store": "Nat → Option Nat"}
+SET_EXT = [("locals().items()", "kwargs", "List (Nat × Option Nat)", True),
+           ("_0 == 'self'", "false", "Bool", True, ["Nat"]),
+           ("vars(self).copy()", "σ.store", "Nat → Option Nat", True)]
+SET_STMT = [("if 'factory_manager' in context_settings:\n    context_settings['_factory_manager'] = context_settings.pop('factory_manager')", "σ", True),
+            ("setattr(self, key, value)", "{{ σ with store := Py.Settings.setattr σ.store σ.key σ.value }}", True),
+            ("setattr(self, key, rollback_settings[key])", "{{ σ with store := Py.Settings.setattr σ.store σ.key (σ.rollback_settings σ.key) }}", True)]
+PROFILES += [
+    dict({"name": "Settings_context_enter", "module": "fuzzylite.library", "object": "Settings.context", "file": "CodeSettings",
+          "part": "enter", "params": [("kwargs", "List (Nat × Option Nat)"), ("store0", "Nat → Option Nat")], "init": {"store": "store0"},
+          "locals": SET_LOCALS, "externals": SET_EXT, "stmt_externals": SET_STMT}),
+    dict({"name": "Settings_context_exit", "module": "fuzzylite.library", "object": "Settings.context", "file": "CodeSettings",
+          "part": "exit", "params": [], "locals": SET_LOCALS, "externals": SET_EXT, "stmt_externals": SET_STMT}),
+]
+
 FILES = {
     "CodeRule": {"imports": ["FlVerif.Op.PyExt"]},
     "CodeFunction": {"imports": ["FlVerif.Op.PyExt"]},
@@ -180,4 +201,6 @@ FILES = {
     "CodeFld": {"imports": ["FlVerif.Op.PyExtFld"]},
     # ---- Python representation
     "CodeRepr": {"imports": ["FlVerif.Op.PyExtRepr"]},
+    # ---- Settings.context
+    "CodeSettings": {"imports": ["FlVerif.Op.PyExtSettings"]},
 }
